@@ -81,8 +81,10 @@ type chainCase struct {
 	NowOff     int64 // verification time = refInstant + NowOff seconds
 	Lazy       bool  // pools built with AppendCertsFromPEM (lazily parsed) instead of AddCert
 	Benign     int
-	ReqEKU     int // 0 none given (= serverAuth), 1 [serverAuth], 2 [clientAuth, serverAuth], 3 [any]
-	SANKind    int // name kind of the intermediate-SAN fault: 0 DNS, 1 IP, 2 email, 3 URI
+	ReqEKU     int  // 0 none given (= serverAuth), 1 [serverAuth], 2 [clientAuth, serverAuth], 3 [any]
+	SANKind    int  // name kind of the intermediate-SAN fault: 0 DNS, 1 IP, 2 email, 3 URI
+	KUFlavor   int  // how a zero-length KeyUsages is handed over: 0 nil, 1 empty literal, 2 buf[:0] of a non-empty buffer
+	NilInter   bool // an empty intermediates pool is handed over as nil
 }
 
 // truth is what the harness knows about a certificate it had made.
@@ -946,8 +948,75 @@ func checkChain(c chainCase, r *h.Rec) error {
 		r.Label("expect-error")
 	}
 
-	opts := smx509.VerifyOptions{Roots: makePool(roots, c.Lazy), Intermediates: makePool(inter, c.Lazy), CurrentTime: p.now, KeyUsages: p.reqEKUs}
+	// KeyUsages is handed over as a private slice with spare capacity holding a
+	// sentinel; a zero-length one as nil, as an empty literal or as buf[:0]
+	const sentinel = x509.ExtKeyUsage(-77)
+	mkKU := func() []x509.ExtKeyUsage {
+		if len(p.reqEKUs) == 0 {
+			switch c.KUFlavor % 3 {
+			case 0:
+				return nil
+			case 1:
+				return []x509.ExtKeyUsage{}
+			}
+		}
+		buf := make([]x509.ExtKeyUsage, len(p.reqEKUs)+3)
+		for i := range buf {
+			buf[i] = sentinel
+		}
+		copy(buf, p.reqEKUs)
+		return buf[:len(p.reqEKUs)]
+	}
+	kuIntact := func(ku []x509.ExtKeyUsage) bool {
+		for i, u := range ku {
+			if u != p.reqEKUs[i] {
+				return false
+			}
+		}
+		if cap(ku) > 0 {
+			for _, u := range ku[len(ku):cap(ku)] {
+				if u != sentinel {
+					return false
+				}
+			}
+		}
+		return true
+	}
+	ku := mkKU()
+	opts := smx509.VerifyOptions{Roots: makePool(roots, c.Lazy), Intermediates: makePool(inter, c.Lazy), CurrentTime: p.now, KeyUsages: ku}
+	if len(inter) == 0 && c.NilInter {
+		opts.Intermediates = nil
+		r.Label("intermediates-nil")
+	}
 	chains, verr := p.leaf.cert.Verify(opts)
+	if !kuIntact(ku) {
+		return fmt.Errorf("Verify modified the caller's KeyUsages slice (or the spare capacity behind it)")
+	}
+	// reuse: the same parsed leaf and the same pool objects serve a failing
+	// verification (no roots) and then the original one again, whose KeyUsages
+	// of the first call have been overwritten in the meantime
+	for i := range ku[:cap(ku)] {
+		ku[:cap(ku)][i] = x509.ExtKeyUsageTimeStamping
+	}
+	if _, err := p.leaf.cert.Verify(smx509.VerifyOptions{Roots: smx509.NewCertPool(), Intermediates: opts.Intermediates, CurrentTime: p.now, KeyUsages: mkKU()}); err == nil {
+		return fmt.Errorf("Verify succeeds with an empty root pool")
+	}
+	opts2 := opts
+	opts2.KeyUsages = mkKU()
+	chains2, verr2 := p.leaf.cert.Verify(opts2)
+	if (verr == nil) != (verr2 == nil) || len(chains) != len(chains2) {
+		return fmt.Errorf("the second Verify of the same leaf with the same pools (after a failed one) gives another result: first %d chains / %v, then %d chains / %v", len(chains), verr, len(chains2), verr2)
+	}
+	for i := range chains {
+		if len(chains[i]) != len(chains2[i]) {
+			return fmt.Errorf("the second Verify of the same leaf with the same pools returns other chains")
+		}
+		for j := range chains[i] {
+			if !bytes.Equal(chains[i][j].Raw, chains2[i][j].Raw) {
+				return fmt.Errorf("the second Verify of the same leaf with the same pools returns other chains")
+			}
+		}
+	}
 	describe := func() string {
 		var sb strings.Builder
 		for _, t := range p.all {
@@ -1018,6 +1087,8 @@ func genChainCase(rt *rapid.T, rootPool, otherPool []int, faults []int) chainCas
 		Lazy:       rapid.Bool().Draw(rt, "lazy"),
 		ReqEKU:     rapid.SampledFrom([]int{0, 0, 1, 2, 3}).Draw(rt, "req-eku"),
 		SANKind:    rapid.IntRange(0, 3).Draw(rt, "san-kind"),
+		KUFlavor:   rapid.IntRange(0, 2).Draw(rt, "ku-flavor"),
+		NilInter:   rapid.Bool().Draw(rt, "nil-inter"),
 	}
 	n := rapid.IntRange(0, 3).Draw(rt, "intermediates")
 	for i := 0; i < n; i++ {
